@@ -168,6 +168,7 @@ func initPath() {
 
 			return value.BoolVal(result), value.Undefined
 		},
+		DefWithParameters(1),
 	)
 	Def(
 		c,
